@@ -264,6 +264,11 @@ def c01_5(ctx):
         w = sym.int_walk(ctx, f, {subj}, {n_})
         fr = sym.exits_formula(w, lambda e: e.kind == "return" and e.node is e0.node)
         may = sym.may_set(fr, U, E) if fr is not False else E
+        if may == U:
+            unread = [o for o in (gi.f_opaques(fr) if fr not in (True, False) else []) if isinstance(o, str) and " < " in o and (n_ in o.split(" < ")[-1].split() or o.strip().endswith("< 1"))]
+            if unread:
+                ctx.undecided("candidate-range", ctx.where(f, e0.node), "deterministic_generate_k compares a candidate with the order as `%s`, which this rule cannot tie to the value returned (`%s`)" % (unread[0][:70], subj[:50]))
+                continue
         ctx.check(may == iv(1, ("s", -1)), "candidate-range", ctx.where(f, e0.node), "deterministic_generate_k: candidates returned are %s, RFC 6979 3.2.h.3 requires exactly [1, n-1]" % may.fmt("n"), sample={"returned": may.fmt("n")})
 
 
@@ -332,6 +337,20 @@ def c01_8(ctx):
 def c01_9(ctx):
     _refcheck(ctx, GEN, "Generator.possible_public_pairs_for_signature", "gn_possible_public_pairs", "recovery-formula")
     _refcheck(ctx, GEN, "Generator.points_for_x", "gn_points_for_x", "recovery-candidates")
+    # no key verifies a signature with s outside [1, n-1], r = 0 (mod n) or a zero hash: recovery returns no key for those
+    f = ctx.func(GEN, "Generator.possible_public_pairs_for_signature")
+    valp, sigp = f.params()[1], f.params()[2]
+    empty = lambda e: e.kind == "return" and isinstance(e.value, ast.List) and not e.value.elts
+    for subj_texts, want, key, what in (({"%s[1]" % sigp}, iv(1, ("s", -1)).complement(), "recovery-s-range", "s outside [1, n-1]"),):
+        w = sym.int_walk(ctx, f, subj_texts, ORDER_TEXTS | {"order"})
+        fr = sym.exits_formula(w, empty)
+        s_, n_ = sym.decisive_set(fr, U, E) if fr is not False else (E, 0)
+        ctx.check(want.issubset(s_), key, ctx.where(f), "possible_public_pairs_for_signature returns candidates for %s (it returns [] only for s in %s): no key verifies such a signature" % (what, s_.fmt("order")),
+                  sample={"empty_for_s": s_.fmt("order")})
+    w = sym.walk(ctx, f, int_names=INTS)
+    ctx.check(sym.guard_present(w, empty, lambda o: o.replace(" ", "") in ("0==%s" % valp, "%s==0" % valp)), "recovery-zero-hash", ctx.where(f), "possible_public_pairs_for_signature returns candidates for a zero hash")
+    ctx.check(sym.guard_present(w, empty, lambda o: "%s[0] %% " % sigp in o and "== 0" in o or o.startswith("0 == %s[0] %% " % sigp)), "recovery-r-zero", ctx.where(f),
+              "possible_public_pairs_for_signature returns candidates for r = 0 (mod n)")
 
 
 # ------------------------------------------------------------------ C01.10
